@@ -508,9 +508,10 @@ TResult ==
         \cup Chk(Ev.fc = s.fc /\ Ev.fc = n /\ Ev.ncalls = n /\ Ev.flfc = n /\ s.strays = 0,
                  "C03.count_honest")
         \cup Chk(s.budgetApplies => Ev.ncalls <= s.cfg.budget, "C03.budget_respected")
-        \cup Chk(s.finished, "C03.terminated")
-        \cup Chk(Ev.msg = s.msg /\ Ev.msg # "", "C03.msg_nonempty")
-        \cup Chk(Ev.iterations = s.iter, "C19.result_fields_agree")
+        \* outfcn: the user's output function stopped the run before the first loop iteration
+        \cup Chk(s.finished \/ (Ev.msg = "outfcn" /\ s.npolls = 0), "C03.terminated")
+        \cup Chk((Ev.msg = s.msg \/ Ev.msg = "outfcn") /\ Ev.msg # "", "C03.msg_nonempty")
+        \cup Chk(Ev.iterations = s.iter \/ Ev.msg = "outfcn", "C19.result_fields_agree")
         \cup Chk(Ev.iterations <= s.cfg.maxiter - 1 \/ s.cfg.maxiter < 1, "C03.iter_bounded")
         \cup Chk(s.cfg.pow2 => (Ev.kmesh = s.k /\ Ev.kfinal = s.k), "C19.result_fields_agree")
         \cup Chk(Ev.x0ok /\ Ev.seedok /\ Ev.ptypeok, "C19.result_fields_agree")
@@ -518,8 +519,8 @@ TResult ==
                               ELSE IF s.uhl = 2 THEN "stochastic (specified noise)" ELSE "stochastic"),
                  "C19.result_fields_agree")
         \cup Chk(Ev.keysok /\ Ev.attrok, "C19.result_keys")
-        \cup Chk(\E i \in DOMAIN s.hist : s.hist[i].pid = Ev.pid, "C19.result_x_in_history")
-        \cup Chk(~noisy => (lasth.pid = Ev.pid /\ lasth.yR = Ev.fvalR),
+        \cup Chk(Ev.msg = "outfcn" \/ \E i \in DOMAIN s.hist : s.hist[i].pid = Ev.pid, "C19.result_x_in_history")
+        \cup Chk((~noisy /\ Ev.msg # "outfcn") => (lasth.pid = Ev.pid /\ lasth.yR = Ev.fvalR),
                  "C19.result_is_last_iterate_det")
         \* deterministic (C04)
         \cup Chk(~noisy => Ev.pid \in Pids, "C04.result_is_evaluated")
@@ -533,7 +534,7 @@ TResult ==
         \cup Chk(noisy => Ev.ttype = (IF s.uhl = 2 THEN "stochastic (specified noise)"
                                       ELSE "stochastic"), "C05.target_type_stochastic")
         \cup Chk(noisy => Ev.pid \in nonfinalPids, "C05.result_evaluated_earlier")
-        \cup Chk(noisy => (nf = expNf /\ tailAtX), "C05.final_samples_at_x")
+        \cup Chk(noisy => ((nf = expNf \/ Ev.msg = "outfcn") /\ tailAtX), "C05.final_samples_at_x")
         \cup Chk(noisy => yvOK, "C05.yvec_is_final_obs")
         \cup Chk((noisy /\ expNf = 1 /\ Ev.nvec = 2) => Ev.yvR[2] \in atx,
                  "C05.yvec_supplement_at_x")
